@@ -120,7 +120,9 @@ def evaluate(p):
 
 
 def _winds(N):
-    return [numpy.linspace(5., 30., N), numpy.array([10. + 7. * ((3 * i) % 5) for i in range(N)])]
+    # the last one is an integer-typed array (whole m/s): the effective wind of a slab is not an integer
+    return [numpy.linspace(5., 30., N), numpy.array([10. + 7. * ((3 * i) % 5) for i in range(N)]),
+            numpy.array([4 + (5 * i) % 9 for i in range(N)], dtype=numpy.int64)]
 
 
 def _equivalent_layers(p):
